@@ -13,6 +13,7 @@ import (
 
 func getFirstBlockToMigrate(
 	database db.KeyValueReader,
+	chainHeight uint64,
 ) (firstBlock uint64, shouldMigrate bool, err error) {
 	transactions, hasTransactions, err := getFirstBlockInBucket(
 		core.TransactionsByBlockNumberAndIndexBucket.Prefix().Scan(database),
@@ -34,6 +35,15 @@ func getFirstBlockToMigrate(
 
 	if hasTransactions != hasReceipts || transactions != receipts {
 		return 0, false, errors.New("transactions and receipts have different first block")
+	}
+
+	// Entries above the chain height do not belong to the chain. No pass can remove them (a pass
+	// stops at the chain height), so Migrate would find them again forever: refuse. This has to be
+	// decided on the block itself, its aligned range start may well lie below the height.
+	if transactions > chainHeight {
+		return 0, false, fmt.Errorf(
+			"old transaction entries found at block %d above the chain height %d", transactions, chainHeight,
+		)
 	}
 
 	// We want to start from the first block that is a multiple of [batchSize] to make
